@@ -48,6 +48,7 @@ static struct scfg
     int slow, pace;
     int camstop; // the camera's stop takes this many extra scheduling steps (a real camera's stop may block for a while)
     int zero_at; // camera returns "no data" (nbytes 0) once at this frame index (>=0)
+    int hwgap_at; // the camera's own frame counter skips one id before this frame index (a frame the camera dropped), every acquisition
 } SC[MAXS];
 static int nstreams = 1;
 static size_t ring_cap = 300;
@@ -200,6 +201,7 @@ struct MCam
     long triggers;
     int running;
     int zero_done;
+    int gaps;
 };
 struct MSto
 {
@@ -285,6 +287,7 @@ c_start(struct Camera* c)
     m->next_hw = 0;
     m->triggers = 0;
     m->zero_done = 0;
+    m->gaps = 0;
     ev("{\"e\":\"CamStart\",\"s\":%d,\"hd\":%d}", m->s, m->h);
     vs_yield("cam_start");
     return Device_Ok;
@@ -340,6 +343,8 @@ c_frame(struct Camera* c, void* im, size_t* nbytes, struct ImageInfo* info)
     }
     const struct ImageShape shp = cur_shape(m);
     size_t n = bytes_of_image(&shp);
+    if (SC[s].hwgap_at >= 0 && (long)m->next_hw == SC[s].hwgap_at && !m->gaps)
+        m->next_hw++, m->gaps = 1; // (the camera dropped a frame by itself: its counter moves on; once per acquisition)
     uint64_t hw = m->next_hw++;
     for (size_t i = 0; i < n; i++)
         ((uint8_t*)im)[i] = pix(s, epoch, hw, i);
@@ -939,7 +944,7 @@ main(int argc, char** argv)
     cfg.budget = 60000;
     cfg.fair_budget = 60000;
     for (int s = 0; s < MAXS; s++)
-        SC[s] = (struct scfg){ .frames = 5, .w = 5, .h = 3, .type = SampleType_u8, .avg = 1, .camfail = -1, .stofail = -1, .shapefail = -1, .setfail_at = -1, .setfail_n = 1, .zero_at = -1, .flip_at = -1 };
+        SC[s] = (struct scfg){ .frames = 5, .w = 5, .h = 3, .type = SampleType_u8, .avg = 1, .camfail = -1, .stofail = -1, .shapefail = -1, .setfail_at = -1, .setfail_n = 1, .zero_at = -1, .flip_at = -1, .hwgap_at = -1 };
     static char line[1 << 18];
     while (fgets(line, sizeof line, f)) {
         char* tok = strtok(line, " \t\n");
@@ -997,6 +1002,7 @@ main(int argc, char** argv)
                 else if (!strcmp(k, "pace")) SC[s].pace = atoi(v);
                 else if (!strcmp(k, "camstop")) SC[s].camstop = atoi(v);
                 else if (!strcmp(k, "zero")) SC[s].zero_at = atoi(v);
+                else if (!strcmp(k, "hwgap")) SC[s].hwgap_at = atoi(v);
             }
         } else if (!strcmp(tok, "prog")) {
             char* s;
